@@ -237,7 +237,8 @@ def Op.sym (a : AEnv) (s : SEnv) (n : Nat) : Op → Poly
     if (aget a y).hi ≤ (aget a x).lo ∧ (aget a x).hi < 2^w then (sget s x).add ((sget s y).scale (-1))
     else [(1, [Atom.var n])]
   | .shr x k =>
-    if (sget s x).allDiv ((2^k : Nat) : Int) then Poly.divC ((2^k : Nat) : Int) (sget s x)
+    if (aget a x).hi < 2^k then []      -- the interval run already knows the quotient is 0 (e.g. carry out of `x + 0`)
+    else if (sget s x).allDiv ((2^k : Nat) : Int) then Poly.divC ((2^k : Nat) : Int) (sget s x)
     else [(1, [Atom.quot x k])]
   | .shl x k => (sget s x).scale ((2^k : Nat) : Int)
   | .low x k =>
@@ -306,6 +307,13 @@ theorem sym_sound (e : Env) (a : AEnv) (s : SEnv) (h : Sat e a) (hs : SSat e s) 
   | shr x k =>
     simp [Op.wf] at hwf
     simp only [Op.sym]
+    split
+    · next hlt =>
+      obtain ⟨_, hx2, _⟩ := h.2 x hwf
+      rw [hv']
+      simp only [Op.eval, Poly.val]
+      rw [Nat.div_eq_of_lt (by omega)]
+      rfl
     split
     · next hd =>
       have hvd := Poly.val_divC (e ++ [v]) _ _ hd
